@@ -3,11 +3,11 @@
    cluster c replaced by rho c (any number of code points or bytes each). Proved so far for
    the operations whose results are characterised cluster-wise: Chars and its variants, Insert,
    Delete, Overtype, the three line-alignment functions, CollapseSpace, Wrap, JustifyLine, the
-   two-column layout and the definitions table. *)
+   two-column layout, the definitions table and tables without a header row. *)
 From Coq Require Import List Bool ZArith Lia.
 Import ListNotations.
 From Rosed Require Import Base.Res Base.ListX Base.Utf8 Gem.Segment Gem.GString Model.Manip Model.Table Model.Options Model.Editor Model.Ops
-     Base.Str Check.Common Proofs.SeamP Proofs.C04P Proofs.C13P Model.Tb Proofs.C03P Proofs.C07Q Proofs.C03W Proofs.C03X Proofs.C03J Proofs.C03T Proofs.C15P Proofs.C06Q Proofs.C15Q Proofs.C12R Proofs.ImageP Base.Cls Inst.Go Inst.GoOk.
+     Base.Str Check.Common Proofs.SeamP Proofs.C04P Proofs.C13P Model.Tb Proofs.C03P Proofs.C07Q Proofs.C03W Proofs.C03X Proofs.C03J Proofs.C03T Proofs.C15P Proofs.C06Q Proofs.C15Q Proofs.C12R Proofs.ImageP Proofs.C03U Base.Cls Inst.Go Inst.GoOk.
 Open Scope Z_scope.
 
 Theorem C03_chars : forall (C : Classifier) (U : Upper) rho rs rs' o ref s e, scalars rs -> scalars rs' -> image rho rs rs' ->
@@ -156,6 +156,22 @@ Theorem C03_definitions_table : forall (C : Classifier) (K : ClassifierOk) (rho 
                                 (map (fun p => entry longest (fst p) (snd p)) (combine defs' rbs')).
 Proof. intros C K. exact deftable_entries_image. Qed.
 Print Assumptions C03_definitions_table.
+
+(* MakeTable without a header row, on a grid of cells and on the grid of their images: the
+   column widths are computed from cluster counts, so they are the same; every line of the image
+   table is the image of the line (borders and bars are plain code points the substitution
+   leaves alone). A header row is upper-cased code point by code point, which an arbitrary
+   substitution does not commute with: headers are decided by the correspondence only. *)
+Theorem C03_table : forall (C : Classifier) (K : ClassifierOk) (U : Upper) (rho : list Z -> list Z),
+  keeps_ws rho -> rho [SP] = [SP] ->
+  forall data data' width sep border charSet x y z,
+  let cs := parse_table_charset charSet in
+  cs_corner cs = [x] -> cs_vert cs = [y] -> cs_horz cs = [z] -> pfix rho x -> pfix rho y -> pfix rho z ->
+  Forall2 (Forall2 (image rho)) data data' ->
+  (forall row c, In row data -> In c row -> all_safe c) -> (forall row c, In row data' -> In c row -> all_safe c) ->
+  Forall2 (image rho) (b_lines (make_table data width sep false border charSet)) (b_lines (make_table data' width sep false border charSet)).
+Proof. intros C K U. exact make_table_image. Qed.
+Print Assumptions C03_table.
 
 (* the premises of C03_justify_line can be met with the classifier regenerated from the Go
    source: "ab c a" and the same line with every "a" replaced by "e" + U+0301 (two code points,
